@@ -55,6 +55,20 @@ def base_flags(variant, opt=None):
 WORKGROUP_FLAGS = ["-DGPUEMU_WORKGROUP"]
 
 
+RACE_FLAGS = ["-DGPUEMU_WORKGROUP", "-DGPUEMU_RACE", "-fsanitize=thread"]
+
+
+def race_device_cmd(mode, src, obj, extra=()):
+    """Device TU for the race pass: -O0 -fsanitize=thread (every access of the translated kernel instrumented, no other
+    sanitizer); link the executable with race_runtime_cmd()'s object and WITHOUT -fsanitize=thread."""
+    return (["g++", "-std=c++17", "-O0", "-g1", "-w"] + RACE_FLAGS + ["-I" + HERE, "-I" + os.path.join(HERE, "include")]
+            + FORCE_INCLUDE[mode] + list(extra) + ["-x", "c++", "-c", src, "-o", obj])
+
+
+def race_runtime_cmd(obj):
+    return ["g++", "-std=c++17", "-O1", "-g1", "-w", "-I" + HERE, "-c", os.path.join(HERE, "race_runtime.cpp"), "-o", obj]
+
+
 def device_cmd(mode, src, obj, variant="asan", extra=(), workgroup=False):
     """-x c++ because OpenCL/Metal sources may carry any extension.
     workgroup=True: work-group semantics (gpuemu/workgroup.hpp): the items of a group run as fibers,
@@ -161,9 +175,16 @@ def selftest_workgroup(variant, workdir, env=None):
     if p.returncode != 0:
         return False, "link failed:\n" + p.stdout[-4000:]
     e = dict(env if env is not None else os.environ)
+    e.pop("GPUEMU_ITEM_ORDER", None)
     p = _run([exe], env=e, cwd=workdir)
     text = p.stdout[-4000:]
     ok = (p.returncode == 0) and ("GPUEMU-WG-SELFTEST PASS" in p.stdout)
+    if ok:
+        e2 = dict(e)
+        e2["GPUEMU_ITEM_ORDER"] = "desc"       # the same known results with the items of a phase run in descending order
+        q = _run([exe], env=e2, cwd=workdir)
+        text += q.stdout[-2000:]
+        ok = (q.returncode == 0) and ("GPUEMU-WG-SELFTEST PASS" in q.stdout)
     if ok and variant == "asan":
         for what in ("oob-cuda", "oob-opencl", "oob-sycl"):
             q = _run([exe, what], env=e, cwd=workdir)
@@ -174,6 +195,36 @@ def selftest_workgroup(variant, workdir, env=None):
     return ok, text
 
 
+def selftest_race(workdir, env=None):
+    """Race pass (race_runtime.cpp): hand-written kernels with known verdicts in CUDA/OpenCL/Metal/SYCL spelling.
+    Needs no libocca.  Returns (ok, output)."""
+    os.makedirs(workdir, exist_ok=True)
+    st = os.path.join(HERE, "selftest")
+    jobs = [("cuda", "st_race_cuda.cpp"), ("opencl", "st_race_opencl.cpp"), ("metal", "st_race_metal.cpp"), ("dpcpp", "st_race_sycl.cpp")]
+    objs, procs = [], []
+    for mode, f in jobs:
+        obj = os.path.join(workdir, f + ".o")
+        objs.append(obj)
+        procs.append((f, subprocess.Popen(race_device_cmd(mode, os.path.join(st, f), obj), stdout=subprocess.PIPE, stderr=subprocess.STDOUT, text=True)))
+    robj = os.path.join(workdir, "race_runtime.o")
+    procs.append(("race_runtime.cpp", subprocess.Popen(race_runtime_cmd(robj), stdout=subprocess.PIPE, stderr=subprocess.STDOUT, text=True)))
+    hobj = os.path.join(workdir, "st_race_host.o")
+    procs.append(("st_race_host.cpp", subprocess.Popen(
+        ["g++", "-std=c++17", "-O1", "-g1", "-w", "-I" + HERE, "-c", os.path.join(st, "st_race_host.cpp"), "-o", hobj],
+        stdout=subprocess.PIPE, stderr=subprocess.STDOUT, text=True)))
+    for f, p in procs:
+        out, _ = p.communicate()
+        if p.returncode != 0:
+            return False, "compile of %s failed:\n%s" % (f, out[-4000:])
+    exe = os.path.join(workdir, "gpuemu_race_selftest")
+    p = _run(["g++"] + objs + [robj, hobj, "-o", exe])
+    if p.returncode != 0:
+        return False, "link failed:\n" + p.stdout[-4000:]
+    e = dict(env if env is not None else os.environ)
+    p = _run([exe], env=e, cwd=workdir)
+    return (p.returncode == 0 and "GPUEMU-RACE-SELFTEST PASS" in p.stdout), p.stdout[-4000:]
+
+
 if __name__ == "__main__":
     variant = sys.argv[1] if len(sys.argv) > 1 else "asan"
     wd = os.path.join(BUILD, "scratch", "gpuemu-selftest")
@@ -181,4 +232,6 @@ if __name__ == "__main__":
     print(out)
     ok2, out2 = selftest_workgroup(variant, os.path.join(wd, "wg"))
     print(out2)
-    sys.exit(0 if (ok and ok2) else 1)
+    ok3, out3 = selftest_race(os.path.join(wd, "race"))
+    print(out3)
+    sys.exit(0 if (ok and ok2 and ok3) else 1)
